@@ -86,12 +86,106 @@ def replayer(extra, path):
                 obs = canon(real.step(s["act"], s["args"]))
                 exp = dict(s["exp"])
                 exp["delivered"] = c.canon_delivered(exp["delivered"])
+                if not exp["sent1009"] and exp["closed"] and obs["closed"]:
+                    obs["sent1009"] = False     # 1009 is demanded for size violations only; other aborts may carry any close frame
                 if obs != exp:
                     return {"step": i, "act": s["act"], "args": s["args"], "exp": exp, "obs": obs,
                             "sig": make_sig(cfg, v, path, i, exp, obs)}
             return None
         finally:
             real.close()
+
+
+def random_trace(job):
+    """One seeded random frame sequence against the real receiver, recorded for TLC."""
+    from harness.httpsim import LogCapture
+    tid, seed = job
+    rng = random.Random(seed)
+    c = cat()
+    cfg = {"deflate": rng.random() < 0.6, "maxMsg": LIMIT}
+    role = rng.choice(["server", "client"])
+    masked = 1 if role == "server" else 0
+    usable = [e for e in c.by_id.values() if cfg["deflate"] or not e["comp"]]
+    good = [e for e in usable if len(e["wire"]) <= LIMIT and len(e["data"]) <= LIMIT and (e["kind"] == "binary" or e["utf8ok"])]
+    ev = []
+    with LogCapture():
+        real = W.ReceiverReal(cfg, c, role=role, mode=rng.choice(["cb", "read"]), grid=rng.randrange(7),
+                              chunk_mode=rng.randrange(4), seed=seed)
+        try:
+            cur = None            # [entry, offset]
+            over_left = None
+            for _ in range(rng.randint(5, 40)):
+                x = rng.random()
+                f = None
+                if x < 0.05:      # one violation
+                    k = rng.choice(["rsv", "rsv", "badop", "fragctl", "bigctl", "contnostart", "datainfrag"])
+                    small = c.by_id[1]
+                    if k == "rsv":
+                        if cur is not None and rng.random() < 0.5:
+                            rem = len(cur[0]["wire"]) - cur[1]
+                            f = {"fin": 1, "rsv": rng.choice([1, 2, 3, 4, 5, 6, 7]), "op": 0, "len": rem, "mid": cur[0]["id"], "lo": cur[1]}
+                        elif rng.random() < 0.5:
+                            f = {"fin": 1, "rsv": rng.choice([1, 2, 3, 4, 5, 6, 7]), "op": rng.choice([9, 10]), "len": rng.choice([0, 3, 125]), "mid": 0, "lo": 0}
+                        elif cur is None:
+                            f = {"fin": 1, "rsv": rng.choice([1, 2, 3, 5, 6, 7] + ([] if cfg["deflate"] else [4])), "op": 1, "len": 3, "mid": 1, "lo": 0}
+                    elif k == "badop":
+                        op = rng.choice([3, 4, 5, 6, 7, 11, 12, 13, 14, 15])
+                        if op >= 8:
+                            f = {"fin": 1, "rsv": 0, "op": op, "len": rng.choice([0, 2]), "mid": 0, "lo": 0}
+                        elif cur is None:
+                            f = {"fin": 1, "rsv": 0, "op": op, "len": 3, "mid": 1, "lo": 0}
+                    elif k == "fragctl":
+                        f = {"fin": 0, "rsv": 0, "op": rng.choice([8, 9, 10]), "len": rng.choice([0, 2]), "mid": 0, "lo": 0}
+                    elif k == "bigctl":
+                        f = {"fin": 1, "rsv": 0, "op": rng.choice([9, 10]), "len": rng.choice([126, 127, 300]), "mid": 0, "lo": 0}
+                    elif k == "contnostart" and cur is None:
+                        f = {"fin": rng.choice([0, 1]), "rsv": 0, "op": 0, "len": 3, "mid": 1, "lo": 0}
+                    elif k == "datainfrag" and cur is not None:
+                        f = {"fin": 1, "rsv": 0, "op": 1, "len": 3, "mid": 1, "lo": 0}
+                if f is None and x < 0.28:
+                    if rng.random() < 0.05:
+                        f = {"fin": 1, "rsv": 0, "op": 8, "len": 2, "mid": 0, "lo": 0}
+                    else:
+                        f = {"fin": 1, "rsv": 0, "op": rng.choice([9, 9, 10]), "len": rng.choice([0, 1, 5, 64, 125]), "mid": 0, "lo": 0}
+                if f is None:
+                    if cur is None:
+                        e = rng.choice(good if rng.random() < 0.85 else usable)
+                        n = len(e["wire"])
+                        k = n if rng.random() < 0.45 else rng.randint(0, n)
+                        f = {"fin": 1 if k == n else 0, "rsv": 4 if e["comp"] else 0, "op": 1 if e["kind"] == "text" else 2,
+                             "len": k, "mid": e["id"], "lo": 0}
+                    else:
+                        e, off = cur
+                        rem = len(e["wire"]) - off
+                        k = rem if rng.random() < 0.5 else rng.randint(0, rem)
+                        f = {"fin": 1 if k == rem else 0, "rsv": 0, "op": 0, "len": k, "mid": e["id"], "lo": off}
+                # peer-side bookkeeping of the message in progress (valid data frames only)
+                if f["op"] in (1, 2) and f["rsv"] in (0, 4) and cur is None and f["mid"] and f["op"] == (1 if c.by_id[f["mid"]]["kind"] == "text" else 2):
+                    cur = None if f["fin"] else [c.by_id[f["mid"]], f["len"]]
+                elif f["op"] == 0 and f["rsv"] == 0 and cur is not None:
+                    cur = None if f["fin"] else [cur[0], cur[1] + f["len"]]
+                hdr = W.encode_header(f["fin"], f["rsv"], f["op"], masked, f["len"])
+                g = dict(f)
+                g["hm"] = g["hu"] = list(hdr)
+                obs = real.step("recv", [g])
+                ev.append({"a": "recv", "args": [f], "hdr": list(hdr), "masked": masked, "obs": obs})
+                if obs["closed"]:
+                    over_left = (over_left if over_left is not None else rng.randint(0, 2)) - 1
+                    if over_left < 0:
+                        break
+                    cur = None
+            return {"id": tid, "cfg": cfg, "role": role, "ev": ev}
+        finally:
+            real.close()
+
+
+def trace_sig(t, bad, l):
+    if not bad:
+        return {}
+    f = bad["args"][0]
+    return {"role": t.get("role"), "deflate": t["cfg"]["deflate"],
+            "frame": {"op": f["op"], "rsv": f["rsv"], "fin": f["fin"], "len_class": _len_class(f["len"])},
+            "obs_closed": bad["obs"]["closed"], "obs_1009": bad["obs"]["sent1009"]}
 
 
 def coverage_names(out):
@@ -125,6 +219,13 @@ def run(ctx):
     ctx.replay(expand(paths, ctx.seed), replayer)
     ctx._phase("s2c", t0)
     ctx.cov["exhaustive"] = True
+    # code -> spec: seeded random frame sequences recorded from the real receiver, judged by TLC
+    t0 = time.time()
+    n = ctx.pick(300, 5000)
+    traces = framework.pool_map(random_trace, [(i + 1, ctx.seed * 1000003 + i) for i in range(n)])
+    ctx.validate("ws", "Trace_WsReceiver", "Trace_WsReceiver.cfg", traces, sig_fn=trace_sig,
+                 env={"WS_CATALOG": os.environ["WS_CATALOG"]})
+    ctx._phase("c2s", t0)
     ctx.cov["trusted_base"] += ["harness/ws_driver.py frame plumbing (build_frame / split_frames / xor_mask)",
                                 "zlib as the opaque permessage-deflate codec (catalogue wire lengths)"]
     ctx.cov["rule"] = ("paths: every frame sequence of length <= %d over the catalogue around max_message_size=%d "
